@@ -250,33 +250,36 @@ func (f *fidRef) IncRef() {
 
 // DecRef should be called when you're finished with a fid.
 func (f *fidRef) DecRef() error {
-	if atomic.AddInt64(&f.refs, -1) == 0 {
-		var (
-			errs []error
-			err  = f.file.Close()
-		)
-		if err != nil {
-			err = fmt.Errorf("file: %w", err)
-			errs = append(errs, err)
-		}
-
+	if atomic.AddInt64(&f.refs, -1) != 0 {
+		return nil
+	}
+	var errs []error
+	func() {
 		// Drop the parent reference.
 		//
 		// Since this fidRef is guaranteed to be non-discoverable when
 		// the references reach zero, we don't need to worry about
 		// clearing the parent.
+		//
+		// Deferred: a Close that panics must not keep the parent, and
+		// with it every directory above, referenced for good.
 		if f.parent != nil {
-			// If we've been previously deleted, removing this
-			// ref is a no-op. That's expected.
-			f.parent.pathNode.removeChild(f)
-			if pErr := f.parent.DecRef(); pErr != nil {
-				pErr = fmt.Errorf("parent: %w", pErr)
-				errs = append(errs, pErr)
-			}
+			defer func() {
+				// If we've been previously deleted, removing this
+				// ref is a no-op. That's expected.
+				f.parent.pathNode.removeChild(f)
+				if pErr := f.parent.DecRef(); pErr != nil {
+					pErr = fmt.Errorf("parent: %w", pErr)
+					errs = append(errs, pErr)
+				}
+			}()
 		}
-		return errors.Join(errs...)
-	}
-	return nil
+		if err := f.file.Close(); err != nil {
+			err = fmt.Errorf("file: %w", err)
+			errs = append(errs, err)
+		}
+	}()
+	return errors.Join(errs...)
 }
 
 // TryIncRef returns true if a new reference is taken on the fid, and false if
